@@ -60,6 +60,15 @@ func coldConcurrentProduce() {
 		os.Exit(4)
 	default:
 	}
+	// the listing is the same whether it is the first thing a process asks for or not
+	dpt.Produce("9.001")
+	dpt.Produce("no.such")
+	later := dpt.ListSupportedTypes()
+	sort.Strings(later)
+	if len(keys) == 0 || strings.Join(keys, ",") != strings.Join(later, ",") {
+		fmt.Printf("LIST-DIFFERS the first call of the process, ListSupportedTypes, gave %d names; after some Produce calls it gives %d\n", len(keys), len(later))
+		os.Exit(5)
+	}
 	fmt.Println("cold ok")
 }
 
